@@ -25,6 +25,19 @@ CLAIMED = {
  "C09": dict(engine="E1-par-sim", ref="5/C09",
    text="Seeded search over schedules and cancel instants: 2-D/3-D renders and octree meshing run on the simulated executor with pool sizes 1..=16, drawn split trees, item interleavings, stop-flag visibility and a cancel fired before the call / before executor item j / before poll j / never; results must equal the sequential run bit for bit, a pre-cancelled or post-cancel-polled run must return None, an uncancelled run must return Some.",
    technique="deterministic simulation: seeded schedule and cancel-instant search with sequential reference model"),
+
+ "C10": dict(engine="E2-reuse-history", ref="5/C10",
+   text="Seeded search over histories: 10-60 operations per run by 1-3 logical workers that keep their evaluator objects and workspaces and exchange recycled tape/function storage (including executable pages that must regrow, via the mmap granularity knob); after every operation the result is compared with the same call on fresh objects (reference model). Exploration is the right level: the property quantifies over unbounded histories of unlike functions, which the simulator samples, replays and minimises.",
+   technique="deterministic simulation of reuse histories (seeded op/provenance sequences) vs fresh-object reference model"),
+ "C04": dict(engine="E2-reuse-history", ref="5/C04",
+   text="Same history simulator weighted towards chains of nested simplifications (depth <= 6): traces come from VM and JIT point/interval evaluators used with reused evaluator objects, children are produced with reused workspaces, recycled storage, other register budgets and RenderHandle's trace-keyed cache; every child is compared bit for bit with its parent at the traced point / at sample points of the traced box under point, float-slice and grad-slice evaluation.",
+   technique="deterministic simulation of simplification histories with parent-vs-child oracle on the traced domain"),
+ "C14": dict(engine="E3-ident-sim", ref="5/C14",
+   text="Each run is a fresh thread whose HashMap keys and Var ids come from a seeded getrandom seam, so which slot each variable lands in and in which order the maps are walked is drawn, replayable and shrinkable; every Shape evaluator entry point is compared with Context::eval on an explicit HashMap<Var,f32>, including missing/extra variables, transforms and post-simplification evaluation.",
+   technique="deterministic simulation of process randomness (seeded getrandom seam: hash order, Var ids) + identity-binding oracle"),
+ "C19": dict(engine="E3-ident-sim", ref="5/C19",
+   text="Each run draws the hash keys (hence the iteration order of the caller's parameter map = Jacobian column packing) and a consistent well-conditioned sparse linear system with a drawn fixed subset; the real solver's result is checked for key set, residual, fixed-as-constant, fixed point and VM/JIT agreement.",
+   technique="deterministic simulation of process randomness (seeded hash order = Jacobian packing) + residual/key-set oracle"),
 }
 
 PENDING = {}
@@ -33,19 +46,15 @@ NA = {
  "C01": "pure function of (expression DAG, input point, register budget): no schedule, clock, fault or history enters; reuse of evaluator objects is decided under C10",
  "C02": "JIT-vs-interpreter agreement and slice-bounds safety are pure functions of (tape, inputs, slice length); executable-memory reuse is decided under C10; preemption inside native code cannot be simulated deterministically here",
  "C03": "interval enclosure is a pure function of (program, box, point)",
- "C04": "check under construction (E2 reuse-history simulation) - will be claimed",
  "C05": "derivatives are a pure function of (program, point, seed duals)",
  "C08": "mesh validity is a pure function of (shape, depth, transform, backend); its only schedule-dependent part (threaded octree build equals sequential build) is decided under C09",
- "C10": "check under construction (E2 reuse-history simulation) - will be claimed",
  "C11": "totality over (program, finite input, malformed argument list); no clause concerns resource or syscall failure, nothing for a scheduler or fault injector to act on",
  "C12": "constructor rewrites, dedup, import/export and stack-safe traversal are pure functions of the construction sequence",
  "C13": "remapping is substitution: a pure function of (tree, remaps, point)",
- "C14": "check under construction (E3 identity simulation) - will be claimed",
  "C15": "bytecode is a pure function of the tape; the one hash map walked is re-sorted into a total order",
  "C16": "closed-form geometry of library shapes: pure in (parameters, point)",
  "C17": "script -> tree is a pure function of the script text",
  "C18": "Canvas2/Canvas3 are Copy value-type state machines driven by explicit calls; no thread, clock, I/O or shared state exists for a scheduler or fault injector to act on",
- "C19": "check under construction (E3 identity simulation) - will be claimed",
  "C20": "trace/bulk well-formedness is a pure function of (program, input); the history-dependent facet (stale arrays in a reused evaluator) is decided under C10",
 }
 
